@@ -990,6 +990,81 @@ sys.exit(1 if bad else 0)
 '''
 
 
+
+def _replay_carry(ob):
+    return '''
+import sys, os, tempfile, shutil
+from datashard import create_table, load_table
+from datashard.data_structures import Schema
+bad = []
+root = tempfile.mkdtemp(prefix="pyvc_replay_")
+sch = Schema(schema_id=1, fields=[{"id": 1, "name": "a", "type": "long", "required": False}])
+def entries(t, snap):
+    out = {}
+    for m in t.file_manager.read_manifest_list_file(snap.manifest_list.lstrip("/")):
+        for df in t.file_manager.read_manifest_file(m.manifest_path.lstrip("/")):
+            out[df.file_path] = (df.added_snapshot_id, df.sequence_number)
+    return out
+try:
+    t = create_table(os.path.join(root, "t"), schema=sch)
+    with t.new_transaction() as tx:
+        tx.append_data([{"a": 1}]); tx.append_data([{"a": 2}]); tx.append_data([{"a": 3}]); tx.commit()
+    m1 = t.metadata_manager.refresh(); s1 = m1.snapshots[-1]
+    e1 = entries(t, s1)
+    if any(v != (s1.snapshot_id, s1.sequence_number) for v in e1.values()): bad.append(("new files not stamped with their snapshot", e1))
+    victim = sorted(e1)[0]
+    t.append_records([{"a": 4}])
+    with t.new_transaction() as tx:
+        tx.delete_files([victim]); tx.commit()
+    m3 = t.metadata_manager.refresh(); s3 = m3.snapshots[-1]
+    e3 = entries(t, s3)
+    if victim in e3: bad.append("deleted file still listed")
+    if set(e3) != (set(entries(t, m3.snapshots[-2])) - {victim}): bad.append(("delete removed/added other files", sorted(e3)))
+    for p, v in e3.items():
+        if p in e1 and v != e1[p]: bad.append(("carried file re-dated", p, e1[p], v))
+    if len(list(load_table(os.path.join(root, "t")).scan())) != 3: bad.append("row count after delete")
+finally:
+    shutil.rmtree(root, ignore_errors=True)
+print("replay carry/delete-exact ->", bad[:3] or "ok")
+sys.exit(1 if bad else 0)
+'''
+
+
+
+def h_by_id(h: H):
+    """BY-ID: lookup by id returns exactly the retained snapshot with that id (the object of the metadata just read), None iff
+    no retained snapshot has it; nothing is modified."""
+    c = h.ctx
+    install(h)
+    md = MD(h, "metadata")
+    st0 = state_of(c, md.obj)
+    mm = h.obj("MetadataManager")
+    reads = []
+    def refresh(I, fv, a, k):
+        nometa = I.ctx.flip("no-metadata")
+        reads.append(nometa)
+        return None if nometa else md.obj
+    h.reg.contracts[f"{MM}:MetadataManager.refresh"] = refresh
+    target = h.int("snapshot_id")
+    F.know(c, st0["cs"], target.z)
+
+    def inv(I, env, it):
+        return [("BY-ID:inv:the-id-was-not-among-the-visited", z3.Not(z3.Select(it["done"], target.z)))]
+    h.reg.loops[f"{MM}:MetadataManager.get_snapshot_by_id"] = {"*": LoopSpec(invariant=inv, name="scan", skip=["snapshot"])}
+    out, val = h.run(f"{MM}:MetadataManager.get_snapshot_by_id", [mm, target])
+    h.ensure("BY-ID:never-raises", out == "ok", detail=repr(val) if out != "ok" else "")
+    if out != "ok":
+        return
+    h.ensure("BY-ID:one-metadata-read", len(reads) == 1)
+    present = z3.Select(st0["smem"], target.z)
+    if val is None:
+        h.ensure("BY-ID:None-only-when-no-retained-snapshot-has-the-id(or-no-table)", z3.BoolVal(True) if reads == [True] else z3.Not(present))
+    else:
+        h.ensure("BY-ID:returns-the-retained-snapshot-with-that-id", z3.And(present, val.z == target.z) if isinstance(val, SRef) and val.cls == st0["cs"] else z3.BoolVal(False))
+    st1 = state_of(c, md.obj)
+    h.ensure("BY-ID:lookup-modifies-nothing", z3.And(st1["pn"] == st0["pn"], st1["pv"] == st0["pv"], st1["ts"] == st0["ts"], st1["seq"] == st0["seq"]))
+
+
 UNITS = {
     "REPOINT/repoint_parents_to_surviving_ancestors": (h_repoint, [f"{SM}:repoint_parents_to_surviving_ancestors"], _replay_repoint),
     "WF-PRESERVE/_apply_retention": (h_apply_retention, [f"{SM}:SnapshotManager._apply_retention"], _replay_wf),
@@ -999,6 +1074,7 @@ UNITS = {
     "MLOG/_append_metadata_log": (h_metadata_log, [f"{MM}:MetadataManager._append_metadata_log"], _replay_mlog),
 }
 UNITS_C09 = {
+    "BY-ID/get_snapshot_by_id": (h_by_id, [f"{MM}:MetadataManager.get_snapshot_by_id"], _replay_lookup),
     "REPOINT-CUR/_most_recent_snapshot_id": (h_most_recent, [f"{SM}:SnapshotManager._most_recent_snapshot_id"], _replay_lookup),
     "BY-TS/get_snapshot_by_timestamp": (h_by_timestamp, [f"{SM}:SnapshotManager.get_snapshot_by_timestamp"], _replay_lookup),
 }
